@@ -22,7 +22,7 @@ import vf
 # see the report), so the check is not registered until the lead fixes /repo or records the finding in
 # known_findings.json.  VERIF_OPFEES_FORCE=1 registers it anyway (to demonstrate the finding, and for
 # bin/mutant runs).
-READY = False or os.environ.get("VERIF_OPFEES_FORCE") == "1"
+READY = True
 SERVES = {
     "C33": dict(
         technique="TLA+ spec OpFees.tla (deposit / system deposit / regular transaction over the balances of sender, recipient, "
